@@ -1004,7 +1004,7 @@ func (g *gen) declFor(T string, to []string, st string) Decl {
 	return Decl{S: "int", Val: g.leafInt(), Maps: []Mapping{{To: to}}}
 }
 
-var malformedKinds = []string{"bogus-field", "unexported", "intkey-map", "nested-ptr", "below-leaf", "leaf-target", "from-all-to-all", "src-leaf", "ptr-iface", "dyn-unexported"}
+var malformedKinds = []string{"bogus-field", "unexported", "intkey-map", "nested-ptr", "below-leaf", "leaf-target", "from-all-to-all", "src-leaf", "ptr-iface", "dyn-unexported", "ptr-map", "ptr-map"}
 
 func (g *gen) malformed(c *Case) string {
 	r := g.r
@@ -1090,6 +1090,61 @@ func (g *gen) malformed(c *Case) string {
 		m.From, m.To = nil, nil
 	case "src-leaf":
 		d.S, d.Val, d.Chunks = "int", g.leafInt(), nil
+	case "ptr-map":
+		// a path continuing below a pointer to a MAP (round 7): the request-time walkers follow a pointer only to a
+		// struct, so Compile must refuse the step — as a struct field, as a map element, as the whole input / output,
+		// on the target side (mapping or static value) and on the source side; ending AT the pointer is fine
+		pm := func() *V {
+			m := vMap("string")
+			m.F["k"] = g.leafStr()
+			if r.Chance(1, 2) {
+				m.F["j"] = g.leafStr()
+			}
+			return vPtr("map[string]string", m)
+		}
+		str := Decl{S: "string", Val: g.leafStr()}
+		switch r.Intn(7) {
+		case 0:
+			c.T = "Outer"
+			str.Maps = []Mapping{{To: []string{"PM", "k"}}}
+			c.Decls = []Decl{str}
+		case 1:
+			c.T = "*map[string]string"
+			str.Maps = []Mapping{{To: []string{"k"}}}
+			c.Decls = []Decl{str}
+		case 2:
+			c.T = "map[string]*map[string]string"
+			str.Maps = []Mapping{{To: []string{"k", "j"}}}
+			c.Decls = []Decl{str}
+		case 3:
+			o := g.value("Outer", 1)
+			o.F["PM"] = pm()
+			c.T = "map[string]any"
+			c.Decls = []Decl{{S: "Outer", Val: o, Maps: []Mapping{{From: []string{"PM", "k"}, To: []string{"k"}}, {From: []string{"N"}, To: []string{"j"}}}}}
+		case 4:
+			c.T = []string{"map[string]string", "Leaf"}[r.Intn(2)]
+			to := map[string]string{"map[string]string": "j", "Leaf": "B"}[c.T]
+			if r.Chance(1, 2) {
+				c.Decls = []Decl{{S: "*map[string]string", Val: pm(), Maps: []Mapping{{From: []string{"k"}, To: []string{to}}}}}
+			} else {
+				e := vMap("*map[string]string")
+				e.F["k"] = pm()
+				c.Decls = []Decl{{S: "map[string]*map[string]string", Val: e, Maps: []Mapping{{From: []string{"k", "k"}, To: []string{to}}}}}
+			}
+		case 5:
+			// a static value below the pointer, beside a mapping that is fine
+			c.T = "Outer"
+			str.Maps = []Mapping{{To: []string{"S"}}}
+			c.Decls = []Decl{str}
+			c.Statics = []Static{{To: []string{"PM", "j"}, Val: g.leafStr()}}
+		default:
+			// the pointer itself as the mapped value: fine
+			o := g.value("Outer", 1)
+			o.F["PM"] = pm()
+			c.T = []string{"Outer", "*map[string]string", "map[string]*map[string]string", "map[string]any"}[r.Intn(4)]
+			to := map[string][]string{"Outer": {"PM"}, "*map[string]string": nil, "map[string]*map[string]string": {"j"}, "map[string]any": {"k"}}[c.T]
+			c.Decls = []Decl{{S: "Outer", Val: o, Maps: []Mapping{{From: []string{"PM"}, To: to}}}}
+		}
 	case "ptr-iface":
 		// a path continuing below a pointer to an interface (F-C15i); ending AT the pointer is fine
 		switch r.Intn(4) {
@@ -1308,6 +1363,55 @@ func (g *gen) unitCase() *Case {
 		c.Unit = sh
 	}
 	return c
+}
+
+// round 7: the successor behind an input key (WithInputKey("k")): a lambda of own input type X; what arrives at it is
+// a map[string]any, and the node is handed the entry "k" of it. One mapping from a source slot of static type X
+// (a field path or the predecessor's whole output) to ["k"], or the static value ["k"] alone (SetStaticValue);
+// the mapped input must be built as a map[string]any whatever X is
+var keyedTypes = []string{"Inner", "*Inner", "Leaf", "*Leaf", "int", "string", "map[string]int", "map[string]Leaf", "Emb", "Outer", "map[string]string"}
+
+func (g *gen) keyedCase() *Case {
+	r := g.r
+	X := keyedTypes[r.Intn(len(keyedTypes))]
+	c := &Case{T: "map[string]any", KeyT: X, Short: r.Chance(1, 2), Note: "keyed-input"}
+	if r.Chance(1, 4) {
+		c.Statics = []Static{{To: []string{inputKey}, Val: g.value(X, 2)}}
+		c.Note = "keyed-input:static"
+		return c
+	}
+	for try := 0; try < 40; try++ {
+		S := srcTypeW[r.Intn(len(srcTypeW))]
+		var cands []pinfo
+		if S == X {
+			cands = append(cands, pinfo{path: nil, ty: S})
+		}
+		for _, p := range g.enumPaths(S, g.depth, false) {
+			if p.ty == X {
+				cands = append(cands, p)
+			}
+		}
+		if len(cands) == 0 {
+			continue
+		}
+		from := cands[r.Intn(len(cands))].path
+		val := g.value(S, g.depth)
+		// the source path must resolve (a request that fails before the node is reached says nothing about the key)
+		ok := false
+		for t2 := 0; t2 < 8; t2++ {
+			if _, cls := refGet(val, expandPath(S, from)); cls == "" {
+				ok = true
+				break
+			}
+			val = g.value(S, g.depth)
+		}
+		if !ok {
+			continue
+		}
+		c.Decls = []Decl{{S: S, Val: val, Maps: []Mapping{{From: from, To: []string{inputKey}}}}}
+		return c
+	}
+	return nil
 }
 
 func (g *gen) base(nDecls, maxMaps int, single bool) (*Case, []pinfo) {
